@@ -64,7 +64,7 @@ type Exec struct {
 	unfoldLevels  int
 	tmp           map[int]string
 	exactDec      bool
-	pureCache     map[string]*Val
+	pureCache     map[string]*pureEntry
 	ifconv        int
 	noName        bool // specification evaluation: keep closed terms, bind no names
 	specSink      *State
